@@ -85,7 +85,7 @@ func genPath(r *Rng, s *jsonapi.Schema, o *Out) string {
 	}
 }
 
-var filterVals = []string{"", "label", "%5Cu007ba", "%5Cu007b%22f%22", "a%26b", "a%23b", "a%5Cb", "a%22b", "a+b", "%7B%7D", "%7B", "a%25", "%7B%22f%22%3A%22name%22%2C%22o%22%3A%22%3D%22%2C%22v%22%3A%22x%26y%22%7D",
+var filterVals = []string{"", "label", "%5Cu0020%7Bx", "+%7Bx", "%20%7B%22f%22%3A1%7D", "%C2%A0%7Bx", "%09%7B", "x%7B", "%5Cu007ba", "%5Cu007b%22f%22", "a%26b", "a%23b", "a%5Cb", "a%22b", "a+b", "%7B%7D", "%7B", "a%25", "%7B%22f%22%3A%22name%22%2C%22o%22%3A%22%3D%22%2C%22v%22%3A%22x%26y%22%7D",
 	"%7B%22o%22%3A%22and%22%2C%22v%22%3A%5B%7B%22f%22%3A%22n%22%2C%22o%22%3A%22%3C%22%2C%22v%22%3A1%7D%2C%7B%22o%22%3A%22or%22%2C%22v%22%3A%5B%5D%7D%5D%7D",
 	"%7B%22o%22%3A%22and%22%2C%22v%22%3A1%7D", "x%0Ay", "%E9"}
 var pageVals = []string{"", "1", "10", "007", "-1", "abc", "a%26b", "+7", "a%23", "1e3", "9223372036854775808"}
@@ -114,7 +114,7 @@ func genQuery(r *Rng, s *jsonapi.Schema, o *Out) []string {
 	}
 	fieldPool := append(append([]string{"id"}, urlAttrNames...), urlRelNames...)
 	incPool := []string{"many", "manys", "one", "r", "many.one", "many.many", "one.r", "r.x", "many.nope", "nope", "many.one.many", ".", "many..one", "a"}
-	sortPool := []string{"id", "-id", "name", "-name", "n", "age", "-age", "b", "-", "nope", "-nope", "many"}
+	sortPool := []string{"id", "-id", "name", "-name", "n", "age", "-age", "b", "-", "nope", "-nope", "many", "--name", "--id", "---age", "--", "name-", "-n"}
 	for k := r.IntN(6); k > 0; k-- {
 		switch r.IntN(8) {
 		case 0, 1:
